@@ -1381,11 +1381,348 @@ def check_peering_wiring(ctx: Ctx, rule: str) -> None:
            construct=construct(f, 'table:peering wiring'), detail='; '.join(dict.fromkeys(bad)))
 
 
+
+# ============================================================================================== C19: API clients
+def _stores(f: FuncInfo, scope: ast.AST, name: str) -> list[ast.AST]:
+    """Statements inside ``scope`` that (re)bind a local name."""
+    out = []
+    for n in walk_no_defs(scope):
+        if isinstance(n, ast.Assign) and any(isinstance(x, ast.Name) and x.id == name for t in n.targets for x in ast.walk(t) if isinstance(getattr(x, 'ctx', None), ast.Store)):
+            out.append(n)
+        elif isinstance(n, (ast.AugAssign, ast.AnnAssign)) and isinstance(n.target, ast.Name) and n.target.id == name:
+            out.append(n)
+        elif isinstance(n, ast.NamedExpr) and n.target.id == name:
+            out.append(n)
+    return out
+
+
+def _index_in(body: list, node: ast.AST) -> int:
+    for i, s in enumerate(body):
+        if any(x is node for x in ast.walk(s)):
+            return i
+    return -1
+
+
+def check_iter_jsonlines(ctx: Ctx, rule: str) -> None:
+    repo = ctx.repo
+    f = repo.fn(f'{API}.iter_jsonlines')
+    ctx.analysed(f)
+    content = f.params()[0].arg
+    outers = [n for n in walk_no_defs(f.node) if isinstance(n, ast.AsyncFor) and isinstance(n.target, ast.Name) and (dotted(n.iter.func.value) if isinstance(n.iter, ast.Call)
+              and isinstance(n.iter.func, ast.Attribute) else None) == content]
+    if len(outers) != 1:
+        raise AnalysisError(f'{f.loc()}: expected one loop over the chunks of the response content in {f.short}')
+    outer, data = outers[0], outers[0].target.id
+    accs = [n for n in walk_no_defs(outer) if isinstance(n, ast.AugAssign) and isinstance(n.op, ast.Add) and isinstance(n.target, ast.Name) and dotted(n.value) == data]
+    accs += [n for n in walk_no_defs(outer) if isinstance(n, ast.Assign) and isinstance(n.value, ast.BinOp) and isinstance(n.value.op, ast.Add) and dotted(n.value.right) == data
+             and len(n.targets) == 1 and dotted(n.targets[0]) == dotted(n.value.left)]
+    if len(accs) != 1:
+        ctx.ob(rule, 'iter_jsonlines: every received chunk is appended to the buffer', False, loc=f.loc(outer), construct=construct(f, 'flow:buffer += chunk'), detail=f'{len(accs)} accumulation sites')
+        return
+    buf = accs[0].target.id if isinstance(accs[0], ast.AugAssign) else accs[0].targets[0].id
+    finds = [c for c in calls_in(outer) if method_call(c, 'find') is not None and dotted(method_call(c, 'find')) == buf and len(c.args) == 2 and isinstance(c.args[1], ast.Name)]
+    whiles = [n for n in walk_no_defs(outer) if isinstance(n, ast.While)]
+    if len(whiles) != 1 or not finds:
+        raise AnalysisError(f'{f.loc(outer)}: the line-splitting loop (`while <index of the separator> >= 0`) was not recognised in {f.short}')
+    wh, st = whiles[0], finds[0].args[1].id
+    sep = src(finds[0].args[0])
+    idxs = {t.id for n in walk_no_defs(outer) if isinstance(n, ast.Assign) and any(n.value is c for c in finds) for t in n.targets if isinstance(t, ast.Name)}
+    idx = next(iter(idxs)) if len(idxs) == 1 else None
+    bad = []
+    # (a) the buffer only grows by chunks and shrinks by the consumed prefix
+    cut = []
+    for n in _stores(f, outer, buf):
+        if n in accs:
+            continue
+        v = n.value if isinstance(n, ast.Assign) else None
+        if isinstance(v, ast.Subscript) and dotted(v.value) == buf and isinstance(v.slice, ast.Slice) and dotted(v.slice.lower) == st and v.slice.upper is None and v.slice.step is None:
+            cut.append(n)
+        else:
+            bad.append(f'the buffer is overwritten by `{norm(n, 50)}` (bytes not yet split into lines are lost or merged)')
+    if _index_in(outer.body, accs[0]) != 0 or not top_level(outer, accs[0]):
+        bad.append('the chunk is not appended first thing, unconditionally')
+    init = [n for n in f.node.body if isinstance(n, ast.Assign) and any(dotted(t) == buf for t in n.targets)]
+    if not (len(init) == 1 and isinstance(init[0].value, ast.Constant) and init[0].value.value in (b'', '')):
+        bad.append('the buffer does not start empty')
+    # (b) the splitting loop
+    test_ok = isinstance(wh.test, ast.Compare) and len(wh.test.ops) == 1 and dotted(wh.test.left) == idx and isinstance(wh.test.comparators[0], (ast.Constant, ast.UnaryOp)) and (
+        (isinstance(wh.test.ops[0], ast.GtE) and src(wh.test.comparators[0]) == '0') or (isinstance(wh.test.ops[0], (ast.Gt, ast.NotEq)) and src(wh.test.comparators[0]) == '-1'))
+    if not test_ok:
+        bad.append(f'the loop condition `{norm(wh.test)}` is not "a separator was found" (index >= 0): a separator at position 0 must be consumed too')
+    ys = [n for n in walk_no_defs(wh) if isinstance(n, ast.Yield)]
+    for y in ys:
+        v = org(f, y.value)
+        if not (isinstance(v, ast.Subscript) and dotted(v.value) == buf and isinstance(v.slice, ast.Slice) and dotted(v.slice.lower) == st and dotted(v.slice.upper) == idx):
+            bad.append(f'a line is yielded as `{norm(v, 40)}`, not as buffer[start:index]')
+    if len(ys) != 1:
+        bad.append(f'{len(ys)} yields in the splitting loop')
+    st_up = [n for n in _stores(f, wh, st)]
+    ix_up = [n for n in _stores(f, wh, idx)] if idx else []
+    ok_st = len(st_up) == 1 and isinstance(st_up[0], ast.Assign) and isinstance(st_up[0].value, ast.BinOp) and isinstance(st_up[0].value.op, ast.Add) \
+        and {src(st_up[0].value.left), src(st_up[0].value.right)} == {idx, '1'} and top_level(wh, st_up[0])
+    if not ok_st:
+        bad.append('the start of the next line is not `index + 1` (exactly one separator is skipped per line), unconditionally')
+    ok_ix = len(ix_up) == 1 and isinstance(ix_up[0], ast.Assign) and isinstance(ix_up[0].value, ast.Call) and method_call(ix_up[0].value, 'find') is not None \
+        and dotted(method_call(ix_up[0].value, 'find')) == buf and len(ix_up[0].value.args) == 2 and src(ix_up[0].value.args[0]) == sep and dotted(ix_up[0].value.args[1]) == st \
+        and top_level(wh, ix_up[0])
+    if not ok_ix:
+        bad.append('the next separator is not searched from the new start, unconditionally')
+    if ok_st and ok_ix and ys:
+        order = [_index_in(wh.body, ys[0]), _index_in(wh.body, st_up[0]), _index_in(wh.body, ix_up[0])]
+        if order != sorted(order) or len(set(order)) != 3:
+            bad.append('inside the splitting loop the order is not: yield the line, advance the start, search the next separator')
+    # (c) per chunk: the search starts at 0; the consumed prefix is cut after the loop
+    wpos = _index_in(outer.body, wh)
+    pre = [n for n in _stores(f, outer, st) if n not in st_up]
+    if not (len(pre) == 1 and isinstance(pre[0], ast.Assign) and src(pre[0].value) == '0' and 0 <= _index_in(outer.body, pre[0]) < wpos):
+        bad.append('the search does not restart at position 0 of the (already cut) buffer for every chunk')
+    first = [n for n in walk_no_defs(outer) if isinstance(n, ast.Assign) and any(n.value is c for c in finds) and n not in ix_up]
+    if not (len(first) == 1 and _index_in(outer.body, accs[0]) < _index_in(outer.body, first[0]) < wpos and src(first[0].value.args[0]) == sep):
+        bad.append('the first separator of a chunk is not searched after the chunk was appended')
+    if not (len(cut) == 1 and _index_in(outer.body, cut[0]) > wpos):
+        bad.append('the consumed prefix is not cut off the buffer (buffer = buffer[start:]) after the lines of the chunk were yielded')
+    elif not top_level(outer, cut[0]):
+        conds = [s for s in outer.body if isinstance(s, ast.If) and any(x is cut[0] for x in ast.walk(s))]
+        if not (conds and isinstance(conds[0].test, (ast.Compare, ast.Name)) and {n.id for n in ast.walk(conds[0].test) if isinstance(n, ast.Name)} == {st} and not conds[0].orelse):
+            bad.append('the cut of the consumed prefix depends on something else than "anything was consumed"')
+    # (d) the unterminated tail
+    after = f.node.body[_index_in(f.node.body, outer) + 1:]
+    tails = [y for s in after for y in walk_no_defs(s) if isinstance(y, ast.Yield) and dotted(y.value) == buf]
+    if len(tails) != 1:
+        bad.append('what is left in the buffer when the stream ends (a last line without a separator) is not yielded')
+    ctx.ob(rule, 'iter_jsonlines (no line of the watch-stream is lost, merged or split): chunks are appended to the buffer; each separator found yields buffer[start:index] '
+           'and moves the start past it; the consumed prefix is cut once per chunk; the unterminated tail is yielded at the end', not bad, loc=f.loc(outer),
+           construct=construct(f, 'flow:line splitting'), detail='; '.join(bad[:3]))
+    guards = [(t, o) for s in wh.body if isinstance(s, ast.If) and ys and any(x is ys[0] for x in ast.walk(s)) for t, o in [(s.test, True)]]
+    ctx.ob(rule, 'iter_jsonlines: only EMPTY lines are skipped', all(org(f, t) is not None and (dotted(t) is not None or src(org(f, t)) == src(org(f, ys[0].value))) for t, o in guards) and len(guards) <= 1,
+           loc=f.loc(wh), construct=construct(f, 'guard:only empty lines skipped'), detail='; '.join(norm(t) for t, _ in guards))
+
+
+def check_stream(ctx: Ctx, rule: str) -> None:
+    from ..rules import nullness_assumption
+    repo = ctx.repo
+    f, g = cfg_of(ctx, f'{API}.stream')
+    stopper = param(f, 'stopper')
+    reqs = g.call_nodes(f'{API}.request')
+    ctx.require_sites(rule, 'stream: the request', len(reqs), 1, f.loc())
+    rsp = None
+    for n in reqs:
+        if isinstance(n.stmt, ast.Assign) and isinstance(n.stmt.targets[0], ast.Name):
+            rsp = n.stmt.targets[0].id
+    nested = [fn for fn in repo.all_functions() if fn.outer is f]
+    closers = {fn.name for fn in nested if any(method_call(c, 'close') is not None and dotted(method_call(c, 'close')) == rsp for c in calls_in(fn.node))}
+    loops = [n for n in g.nodes if n.kind == 'loop' and isinstance(n.stmt, (ast.AsyncFor, ast.For)) and any(is_call_to(repo, f, c, f'{API}.iter_jsonlines') for c in calls_in(n.stmt.iter))]
+    ctx.require_sites(rule, 'stream: iteration over the lines of the response', len(loops), 1, f.loc())
+    adds = g.stmt_nodes(lambda x: isinstance(x, ast.Call) and recv_is(x, 'add_done_callback', stopper) and x.args and dotted(x.args[0]) in closers)
+    rems = g.stmt_nodes(lambda x: isinstance(x, ast.Call) and recv_is(x, 'remove_done_callback', stopper) and x.args and dotted(x.args[0]) in closers)
+    nonnull = g.pruned(nullness_assumption(stopper))
+    both = lambda a, b: nonnull(a, b) and normal_edges(a, b)
+    unarmed = [l for l in loops if l in g.reach(reqs, stop=lambda n: n in set(adds), edge_ok=both)]
+    ctx.ob(rule, 'stream: before the lines are read, the stopper (the pause waiter) is armed to CLOSE THE RESPONSE when it fires -- a pause ends the running watch',
+           bool(adds) and bool(closers) and not unarmed, loc=f.loc(adds[0].stmt) if adds else f.loc(), construct=construct(f, 'dom:stopper closes the response'))
+    esc = g.escaping_exits(adds, rems, edge_ok=nonnull) if adds else []
+    ctx.ob(rule, 'stream: the close-callback is removed from the stopper on every exit (the long-lived pause waiter does not accumulate callbacks of dead responses)',
+           bool(adds) and not esc, loc=f.loc(), construct=construct(f, 'pair:add/remove close-callback'), detail=', '.join(e.label for e in esc))
+    tests = set(g.stmt_nodes(lambda x: isinstance(x, ast.Call) and recv_is(x, 'done', stopper))) & g.reach(reqs, edge_ok=normal_edges)
+    untested = [l for l in loops if l in g.reach(reqs, stop=lambda n: n in tests, edge_ok=both)]
+    ctx.ob(rule, 'stream: after the response headers arrived the stopper is consulted again before any line is read', bool(tests) and not untested, loc=f.loc(), construct=construct(f, 'dom:done-test after the request'))
+    for lp in loops:
+        body = lp.stmt.body
+        ys = [y for s in body for y in walk_no_defs(s) if isinstance(y, ast.Yield)]
+        var = lp.stmt.target.id if isinstance(lp.stmt.target, ast.Name) else None
+        ok = len(ys) == 1 and top_level(lp.stmt, ys[0]) and not loop_escapes(lp.stmt) and isinstance(ys[0].value, ast.Call) and (repo.resolve(f.module, ys[0].value.func) or '') == 'json.loads' \
+            and var is not None and any(isinstance(x, ast.Name) and x.id == var for x in ast.walk(ys[0].value))
+        it = [c for c in calls_in(lp.stmt.iter) if is_call_to(repo, f, c, f'{API}.iter_jsonlines')][0]
+        ok = ok and it.args and dotted(it.args[0]) == f'{rsp}.content'
+        ctx.ob(rule, 'stream: EVERY line of the response content is parsed and yielded, unconditionally (no event of the watch-stream is skipped here)', bool(ok), loc=f.loc(lp.stmt),
+               construct=construct(f, 'flow:every line yielded'))
+
+    def eff(it, p, call, names):
+        if method_call(call, 'close') is not None and dotted(method_call(call, 'close')) == rsp:
+            return 'close'
+        if f'{API}.iter_jsonlines' in names:
+            return 'lines'
+        return None
+    paths = absint.analyse(repo, f, absint.Config(effect=eff, raising={f'{API}.request': ['asyncio.CancelledError']}))
+    ctx.count('paths', len(paths))
+    atoms = {'NONE': rf'^isnone\({stopper}\)$', 'DONE': rf'^truthy\({stopper}\.done\(\)\)$'}
+
+    def observe(p):
+        cancelled = any(e.label.startswith('raised:') for e in p.trace)
+        if cancelled:
+            return ('cancelled', 'propagates' if p.status == 'raise' else 'ends quietly')
+        return ('ok', 'closed, nothing read' if p.effects('close') and not p.effects('lines') and p.status == 'return' else 'reads the lines' if p.effects('lines') and not p.effects('close') else 'other')
+
+    def spec(v):
+        fired = (not v['NONE']) and v['DONE']
+        return [('ok', 'closed, nothing read' if fired else 'reads the lines'), ('cancelled', 'ends quietly' if fired else 'propagates')]
+    bad = []
+    rows = set()
+    for p in paths:
+        for v in absint.completions(p, atoms, lambda k, _p=p: absint.entails(repo, f, _p, k)):
+            if v['NONE'] and v['DONE']:
+                continue
+            o = observe(p)
+            rows.add((v['NONE'], v['DONE'], o[0]))
+            if o not in spec(v):
+                bad.append(f'stopper {"absent" if v["NONE"] else "fired" if v["DONE"] else "pending"}, request {o[0]}: {o[1]}')
+    ctx.ob(rule, f'stream ({len(paths)} paths): a stopper that has fired by the time the request returns => the response is closed and nothing is read; a cancellation of the '
+           'request ends the stream quietly only if the stopper fired, otherwise it propagates', not bad and len(rows) >= 6, loc=f.loc(), construct=construct(f, 'table:stopper x request'),
+           detail='; '.join(dict.fromkeys(bad)))
+
+
+def check_list_objs(ctx: Ctx, rule: str) -> None:
+    repo = ctx.repo
+    f = repo.fn(f'{FETCH}.list_objs')
+    ctx.analysed(f)
+    gets = [n.targets[0].id for n in walk_no_defs(f.node) if isinstance(n, ast.Assign) and isinstance(n.targets[0], ast.Name) and isinstance(strip(n.value), ast.Call)
+            and is_call_to(repo, f, strip(n.value), f'{API}.get')]
+    if len(gets) != 1:
+        raise AnalysisError(f'{f.loc()}: expected one api.get in list_objs')
+    rsp = gets[0]
+    loops = [n for n in walk_no_defs(f.node) if isinstance(n, ast.For) and isinstance(n.target, ast.Name) and any(isinstance(x, ast.Constant) and x.value == 'items' for x in ast.walk(n.iter))
+             and any(isinstance(x, ast.Name) and x.id == rsp for x in ast.walk(n.iter))]
+    ctx.require_sites(rule, 'list_objs: loop over the items of the list response', len(loops), 1, f.loc())
+    rets = [n.value for n in walk_no_defs(f.node) if isinstance(n, ast.Return) and n.value is not None]
+    for loop in loops:
+        item = loop.target.id
+        unsliced = not isinstance(loop.iter, ast.Subscript) or not isinstance(loop.iter.slice, ast.Slice)
+        apps = [c for c in calls_in(loop) if method_call(c, 'append') is not None and c.args and dotted(c.args[0]) == item]
+        ok = len(apps) == 1 and top_level(loop, apps[0]) and not loop_escapes(loop) and unsliced
+        acc = dotted(method_call(apps[0], 'append')) if apps else None
+        ret_ok = bool(rets) and all(isinstance(r, ast.Tuple) and r.elts and dotted(r.elts[0]) == acc for r in rets)
+        ctx.ob(rule, 'list_objs: EVERY item of the list response is collected, unconditionally, and the collection is what is returned (no object of the initial listing is '
+               'missing from the stream)', ok and ret_ok, loc=f.loc(loop), construct=construct(f, 'flow:all items returned'))
+        for field in ('kind', 'apiVersion'):
+            sets = [c for c in calls_in(loop) if method_call(c, 'setdefault') is not None and dotted(method_call(c, 'setdefault')) == item and len(c.args) == 2
+                    and isinstance(c.args[0], ast.Constant) and c.args[0].value == field]
+            val_ok = bool(sets) and all(any(isinstance(x, ast.Subscript) and dotted(x.value) == rsp and isinstance(x.slice, ast.Constant) and x.slice.value == field
+                                            for x in ast.walk(c.args[1])) for c in sets)
+            if field == 'kind':
+                val_ok = val_ok and all(any(isinstance(x, ast.Constant) and x.value == 'List' for x in ast.walk(c.args[1])) for c in sets)
+            guarded = bool(sets) and all(any(isinstance(s, ast.If) and any(x is c for x in ast.walk(s)) and isinstance(s.test, ast.Compare) and isinstance(s.test.ops[0], ast.In)
+                                             and isinstance(s.test.left, ast.Constant) and s.test.left.value == field and dotted(s.test.comparators[0]) == rsp for s in loop.body) for c in sets)
+            ctx.ob(rule, f'list_objs: an item without `{field}` gets the one of the list response' + (' (minus the "List" suffix)' if field == 'kind' else '')
+                   + ', an item that has it keeps its own', val_ok and guarded, loc=f.loc(sets[0]) if sets else f.loc(loop), construct=construct(f, f'flow:item.{field} default'))
+
+
+HANDOVER = [
+    (f'{QUEUE}.watcher', f'{WATCH}.infinite_watch', ('resource', 'namespace', 'settings')),
+    (f'{WATCH}.infinite_watch', f'{WATCH}.continuous_watch', ('resource', 'namespace', 'settings')),
+    (f'{WATCH}.continuous_watch', f'{FETCH}.list_objs', ('resource', 'namespace', 'settings')),
+    (f'{WATCH}.continuous_watch', f'{WATCH}.watch_objs', ('resource', 'namespace', 'settings')),
+]
+
+
+def check_handover(ctx: Ctx, rule: str) -> None:
+    repo = ctx.repo
+    for caller, callee, names in HANDOVER:
+        f = repo.fn(caller)
+        ctx.analysed(f)
+        cs = [c for c in calls_in(f.node) if is_call_to(repo, f, c, callee)]
+        ctx.require_sites(rule, f'{f.name}: call of {callee.rsplit(".", 1)[-1]}', len(cs), 1, f.loc())
+        for c in cs:
+            wrong = [k for k in names if dotted(kwarg(c, k)) != param(f, k)]
+            ctx.ob(rule, f'{f.name} -> {callee.rsplit(".", 1)[-1]}: the stream of a key lists/watches exactly the resource and namespace of that key', not wrong, loc=f.loc(c),
+                   construct=construct(f, f'config:{callee.rsplit(".", 1)[-1]}(resource=, namespace=)'), detail=', '.join(f'{k}={norm(kwarg(c, k))}' for k in wrong))
+    for ref, sender in ((f'{FETCH}.list_objs', f'{API}.get'), (f'{WATCH}.watch_objs', f'{API}.stream')):
+        f = repo.fn(ref)
+        ctx.analysed(f)
+        urls = [c for c in calls_in(f.node) if method_call(c, 'get_url') is not None]
+        sends = [c for c in calls_in(f.node) if is_call_to(repo, f, c, sender)]
+        ok = len(urls) == 1 and dotted(method_call(urls[0], 'get_url')) == param(f, 'resource') and dotted(kwarg(urls[0], 'namespace')) == param(f, 'namespace') \
+            and len(sends) == 1 and org(f, kwarg(sends[0], 'url', 0)) is urls[0] and kwarg(urls[0], 'name') is None and kwarg(urls[0], 'subresource') is None
+        ctx.ob(rule, f'{f.name}: the request goes to the collection URL of the given resource in the given namespace (cluster-wide for None)', ok, loc=f.loc(urls[0]) if urls else f.loc(),
+               construct=construct(f, 'config:get_url(namespace=)'))
+        if ref.endswith('watch_objs'):
+            pv = kwarg(urls[0], 'params') if urls else None
+            sets = [n for n in f.node.body if isinstance(n, ast.Assign) and len(n.targets) == 1 and isinstance(n.targets[0], ast.Subscript) and dotted(n.targets[0].value) == dotted(pv)
+                    and isinstance(n.targets[0].slice, ast.Constant)] if pv is not None and dotted(pv) else []
+            fixed = {n.targets[0].slice.value: (n.value.value if isinstance(n.value, ast.Constant) else None) for n in sets}
+            lit = org(f, pv)
+            if isinstance(lit, ast.Dict):
+                fixed.update({k.value: (v.value if isinstance(v, ast.Constant) else None) for k, v in zip(lit.keys, lit.values) if isinstance(k, ast.Constant)})
+            ctx.ob(rule, 'watch_objs: the request is unconditionally a WATCH (watch=true) with bookmarks allowed (allowWatchBookmarks=true keeps the resumable version fresh)',
+                   fixed.get('watch') == 'true' and fixed.get('allowWatchBookmarks') == 'true', loc=f.loc(), construct=construct(f, 'config:watch params'), detail=str(fixed))
+
+
+def check_scanning(ctx: Ctx, rule: str) -> None:
+    repo = ctx.repo
+    sc = repo.fn(f'{SCAN}.scan_resources')
+    readers = (f'{SCAN}._read_old_api', f'{SCAN}._read_new_apis')
+    ctx.analysed(sc)
+    called = {r: [c for c in ast.walk(sc.node) if isinstance(c, ast.Call) and is_call_to(repo, sc, c, r)] for r in readers}
+    ctx.ob(rule, 'scan_resources reads both the core API (/api) and the API groups (/apis), each with the requested groups', all(len(v) == 1 and dotted(kwarg(v[0], 'groups')) == param(sc, 'groups') for v in called.values()),
+           loc=sc.loc(), construct=construct(sc, 'flow:both readers'))
+    n_loops = 0
+    for ref in (f'{SCAN}.scan_resources',) + readers:
+        f = repo.fn(ref)
+        ctx.analysed(f)
+        rets = [n.value for n in walk_no_defs(f.node) if isinstance(n, ast.Return) and n.value is not None]
+        for lp in [n for n in walk_no_defs(f.node) if isinstance(n, ast.For) and isinstance(n.target, ast.Name) and isinstance(n.iter, ast.Call)
+                   and (repo.resolve(f.module, n.iter.func) or '') == 'asyncio.as_completed']:
+            n_loops += 1
+            ups = [c for c in calls_in(lp) if method_call(c, 'update') is not None and c.args and isinstance(c.args[0], ast.Await) and dotted(c.args[0].value) == lp.target.id]
+            acc = dotted(method_call(ups[0], 'update')) if ups else None
+            ok = len(ups) == 1 and top_level(lp, ups[0]) and not loop_escapes(lp) and bool(rets) and all(dotted(r) == acc for r in rets)
+            ctx.ob(rule, f'{f.name}: the resources of EVERY completed sub-scan are merged into the returned set (a discovered resource is not dropped)', ok, loc=f.loc(lp),
+                   construct=construct(f, 'flow:merge all sub-scans'))
+    ctx.require_sites(rule, 'scanning: merge loops over the sub-scans', n_loops, 3)
+    old, new = repo.fn(readers[0]), repo.fn(readers[1])
+    for f, what, spec, atoms_ in ((old, 'the core API is read iff no groups are requested or the core group "" is among them', lambda v: v['none:groups'] or v["in:'',groups"], ['none:groups', "in:'',groups"]),):
+        gp = param(f, 'groups')
+        ifs = [n for n in f.node.body if isinstance(n, ast.If) and any(is_call_to(repo, f, c, f'{API}.get') for c in calls_in(ast.Module(n.body, [])))]
+        formula_ob(ctx, rule, f, ifs[0].test if len(ifs) == 1 else None, role_leaf(lambda e: 'groups' if dotted(e) == gp else repr(e.value) if isinstance(e, ast.Constant) and isinstance(e.value, str) else None),
+                   spec, atoms_, f'{f.name}: {what}', 'formula:group gate')
+    gp = param(new, 'groups')
+    filt = []
+    for n in walk_no_defs(new.node):
+        if isinstance(n, (ast.ListComp, ast.SetComp, ast.GeneratorExp)) and any(isinstance(x, ast.Constant) and x.value == 'groups' for x in ast.walk(n.generators[0].iter)):
+            filt.append(n)
+    ok = False
+    detail = ''
+    for n in filt[:1]:
+        v = n.generators[0].target.id if isinstance(n.generators[0].target, ast.Name) else None
+        cond = n.generators[0].ifs[0] if len(n.generators[0].ifs) == 1 else ast.Constant(True) if not n.generators[0].ifs else ast.BoolOp(ast.And(), n.generators[0].ifs)
+        atoms: set = set()
+        code = bexpr(new, cond, role_leaf(lambda e: 'groups' if dotted(e) == gp else 'name' if isinstance(e, ast.Subscript) and dotted(e.value) == v and src(e.slice) == "'name'" else None), atoms)
+        detail = tt_diff(code, lambda v_: v_['none:groups'] or v_['in:name,groups'], atoms | {'none:groups', 'in:name,groups'}) or ''
+        ok = detail == ''
+    ctx.ob(rule, '_read_new_apis: an API group is scanned iff no groups are requested or its name is among them', ok and len(filt) == 1, loc=new.loc(filt[0]) if filt else new.loc(),
+           construct=construct(new, 'formula:group filter'), detail=detail)
+    rv = repo.fn(f'{SCAN}._read_version')
+    ctx.analysed(rv)
+    paths = absint.analyse(repo, rv, absint.Config(raising={f'{API}.get': [f'{ERR}.APINotFoundError']}))
+    gone = [p for p in paths if any(e.label.startswith('raised:') for e in p.trace)]
+    ctx.ob(rule, '_read_version: a vanished group/version (404 after the last CRD of a group was deleted) is an EMPTY scan, not an error -- so that the re-scan can drop the '
+           'resources of that group', bool(gone) and all(p.status == 'return' and p.retval is not None and p.retval.kind == 'coll' and p.retval.data == ('display', ()) for p in gone),
+           loc=rv.loc(), construct=construct(rv, 'table:404 => empty'))
+    comps = [n for n in walk_no_defs(rv.node) if isinstance(n, (ast.SetComp, ast.ListComp)) and any(is_call_to(repo, rv, c, f'{REF}.Resource') for c in calls_in(n.elt))]
+    ok = False
+    for n in comps[:1]:
+        v = n.generators[0].target.id if isinstance(n.generators[0].target, ast.Name) else None
+        ifs = n.generators[0].ifs
+        ok = len(ifs) == 1 and isinstance(ifs[0], ast.Compare) and isinstance(ifs[0].ops[0], ast.NotIn) and isinstance(ifs[0].left, ast.Constant) and ifs[0].left.value == '/' \
+            and isinstance(ifs[0].comparators[0], ast.Subscript) and dotted(ifs[0].comparators[0].value) == v and src(ifs[0].comparators[0].slice) == "'name'"
+        ctor = [c for c in calls_in(n.elt) if is_call_to(repo, rv, c, f'{REF}.Resource')][0]
+        same = all(dotted(kwarg(ctor, k)) == param(rv, k) for k in ('group', 'version', 'preferred')) and src(kwarg(ctor, 'plural')) == f"{v}['name']" \
+            and src(kwarg(ctor, 'namespaced')) == f"{v}['namespaced']"
+        ok = ok and same
+    ctx.ob(rule, '_read_version: every listed resource except the sub-resources ("x/status") becomes a Resource of the scanned group/version with its plural name, scope and '
+           'preferred flag', ok and len(comps) == 1, loc=rv.loc(comps[0]) if comps else rv.loc(), construct=construct(rv, 'flow:resources of a version'))
+    prefs = [kwarg(c, 'preferred') for c in ast.walk(new.node) if isinstance(c, ast.Call) and is_call_to(repo, new, c, f'{SCAN}._read_version')]
+    ok = len(prefs) == 1 and isinstance(prefs[0], ast.Compare) and isinstance(prefs[0].ops[0], ast.Eq) and 'preferredVersion' in src(prefs[0]) \
+        and sum(1 for x in ast.walk(prefs[0]) if isinstance(x, ast.Constant) and x.value == 'version') >= 2
+    ctx.ob(rule, '_read_new_apis: a version is preferred iff it is the preferredVersion of its group (unversioned selectors serve exactly one version of a resource)', ok, loc=new.loc(),
+           construct=construct(new, 'formula:preferred'), detail=norm(prefs[0]) if prefs else '')
+
+
 EXTRA = {
     'C19': [(check_is_deleted, 'R19.20'), (check_revise_namespaces, 'R19.21'), (check_update_resources, 'R19.22'), (check_revise_resources, 'R19.23'),
             (check_disable_filters, 'R19.24'), (check_revision_notify, 'R19.25'), (check_discovered_events, 'R19.26'), (check_namespace_observer, 'R19.27'),
             (check_resource_identity, 'R19.28'), (check_get_url, 'R19.29'), (check_selector_check, 'R19.30'), (check_selector_select, 'R19.31'),
             (check_backbone, 'R19.32'), (check_match_namespace, 'R19.33'), (check_ensemble, 'R19.34'), (check_terminate, 'R19.35'),
-            (check_adjust_tasks, 'R19.36'), (check_spawn_keys, 'R19.37')],
+            (check_adjust_tasks, 'R19.36'), (check_spawn_keys, 'R19.37'), (check_iter_jsonlines, 'R19.38'), (check_stream, 'R19.39'),
+            (check_list_objs, 'R19.40'), (check_handover, 'R19.41'), (check_scanning, 'R19.42')],
     'C13': [(check_peering_wiring, 'R13.24'), (check_peering_presence, 'R13.25')],
 }
